@@ -15,7 +15,14 @@ derivation so that correct code can never trip it:
   d*var + n*e^2; the subtraction, square, the n-1 additions, the division and the square root each
   contribute a factor (1 + <=u), the last one twice in s^2.  Hence
   |s^2 - var| <= g_(n+7) * var + (1+g)*(n/d)*e^2 <= g_(n+7)*var + 2.1*(g_n*M)^2.
-  Allowed: 4*(n+8)*u*var + 8*((n+1)*u*M)^2 + 2^-1000 (the last term covers underflow of squares).
+  Allowed: 4*(n+8)*u*var + 8*((n+1)*u*M)^2 + (n+8)*2^-1074.  The last term is the UNDERFLOW allowance, in exact units:
+  a square of a deviation below 2^-537 is subnormal and is rounded to a multiple of 2^-1074 (error <= 2^-1075 each, n of
+  them; additions of subnormals are exact; the division by d rounds once more), so s^2 is off by at most
+  (n/d + 1) 2^-1075 < 3 * 2^-1075 beyond the relative terms; (n+8) 2^-1074 also covers implementations that divide
+  before they add.  (It was 2^-1000 before the third seeded round: the clause was vacuous for samples below 2^-500; now
+  it stays meaningful down to the subnormal results - a deviation of a sample of magnitude 1e-162 may be returned as 0
+  or as sqrt(k 2^-1074), but not as 1e-150, inf or NaN.)  A sample of finite values below 1e150 has a finite exact
+  variance: NaN and inf are failures at EVERY small magnitude (the exact formula never leaves the range downwards).
 * relations.  translation (only when x_i + c is exact for every i, which the oracle verifies in
   rationals), scaling by k (only when k*x_i is exact) and sample-vs-population compare the two
   returned values through the sum of the two slacks above:  |s2^2 - s1^2|, |s2^2 - k^2 s1^2|,
@@ -24,6 +31,12 @@ derivation so that correct code can never trip it:
   of the logarithms has absolute error <= (n+1)*2^-52*L, L = max|ln x_i|, so g has relative error
   <= (n+1)*2^-52*L + 2^-52 and g^n at most n times that (to first order; the quantity is < 1e-9
   for n <= 200).  Allowed: |g^n - prod x_i| <= 4*n*((n+1)*(L+1)+1)*2^-52 * prod x_i.
+  Huge values (above 2^1000, far outside the statement's range) are judged by the same test; +inf is accepted there
+  exactly when prod x_i (1 + slack) >= MAX^n, i.e. when the exact mean is within the allowance of the largest number.
+  Tiny positive values (below 2^-1000, down to the smallest subnormal: inside the statement's range) have a tiny or
+  subnormal geometric mean, which carries an absolute rounding error of up to 2^-1075: there the same two tests are made
+  on the interval [g - 2^-1074, g + 2^-1074] around the returned g (lower end clamped at 0), and g must be finite and
+  positive (the exact mean is >= min x_i >= 2^-1074, and exp(mean(ln x)) cannot round to 0 there).
 """
 import struct, math
 from fractions import Fraction
@@ -33,12 +46,15 @@ RULE = ("samples of length 0..200 with |x| <= 1e6 in eight shapes (uniform, smal
         "kind) for every request, 200 x 1e6; every length 0..200 (and 201..1025) once per request kind; geometric means of "
         "samples whose products over chunks of 2..200 values under/overflow; whole samples of magnitude 1e-300..1e300; "
         "narrow samples at offsets 1e-100..1e100 of relative width 1e-1..1e-16; exact translations by 2^20..2^50; "
-        "zero/sign patterns (all negative, zero maximum, signed zeros, symmetric); NaN/inf/non-positive data at every "
+        "zero/sign patterns (all negative, zero maximum, signed zeros, symmetric); edge of the number range: samples whose values "
+        "agree to within 1..8 ulps in every binade 2^-1074..2^19, deep-subnormal samples (k 2^-1074, k < 2^b, b = 1..52), whole "
+        "samples of magnitude 1e-323..1e-290 and 1e-170..1e-150, exact translations / scalings of integer multiples of 2^-1074.."
+        "2^-530, geometric means of subnormal / tiny positive values; NaN/inf/non-positive data at every "
         "position (correspondence only; a geometric mean of data that is not positive: returns-vs-panics only); non-trivial = the model's answer contains a number that is not NaN; "
         "distinct = distinct request lines")
 
 U = Fraction(1, 2 ** 53)
-FLOOR = Fraction(1, 2 ** 1000)
+QUANTUM = Fraction(1, 2 ** 1074)           # the smallest positive binary64 number
 # Ranges in which the rounding model above is valid (no overflow of a sum of <= 1025 values / of a sum of squares,
 # no subnormal geometric mean).  The property's own range (|x| <= 1e6) lies far inside; samples beyond these
 # limits are generated too, but only compared with the model.
@@ -46,6 +62,7 @@ MEAN_MAX = 1e300
 STD_MAX = 1e150
 GEOM_MIN = 2.0 ** -1000
 GEOM_MAX = 2.0 ** 1000
+MAX_FLOAT = 1.7976931348623157e308
 
 
 def fl(bits):
@@ -82,7 +99,7 @@ def mean_slack(xs):
 def var_slack(xs, var):
     n = len(xs)
     M = max(abs(fr(x)) for x in xs)
-    return 4 * (n + 8) * U * var + 8 * ((n + 1) * U * M) ** 2 + FLOOR
+    return 4 * (n + 8) * U * var + 8 * ((n + 1) * U * M) ** 2 + (n + 8) * QUANTUM
 
 
 def denom(kind, n):
@@ -135,15 +152,30 @@ def check_geom(xs, got):
         return None if isnan(got) else f"geometric mean of the empty sample is {got!r}, not NaN"
     if not finite(xs) or any(x <= 0 for x in xs):
         return None  # outside the property's domain (positive data): see `compare` (only a panic is a disagreement)
-    if min(xs) < GEOM_MIN or max(xs) > GEOM_MAX:
-        return None  # the result may be subnormal (no relative accuracy) or overflow by an ulp: correspondence only
-    if isnan(got) or math.isinf(got) or got <= 0:
+    if isnan(got) or got <= 0 or (math.isinf(got) and max(xs) <= GEOM_MAX):
         return f"geometric mean of a positive sample is {got!r}"
     L = max(abs(math.log(x)) for x in xs)
     rel = 4 * n * ((n + 1) * (Fraction(L) + 1) + 1) * Fraction(1, 2 ** 52)
     prod = Fraction(1)
     for x in xs:
         prod *= fr(x)
+    if math.isinf(got):
+        # values above 2^1000 (far outside the statement's range): +inf is an answer "to within rounding" exactly when the
+        # exact mean lies within the rounding allowance of the largest finite number (200 x f64::MAX: the sum of the
+        # logarithms taken left to right overflows exp by an ulp, taken pairwise it does not)
+        if prod * (1 + rel) >= Fraction(MAX_FLOAT) ** n:
+            return None
+        return (f"geometric mean overflowed to inf although the exact mean is below the largest finite number by more than "
+                f"rounding (largest value {max(xs)!r})")
+    if min(xs) < GEOM_MIN:
+        # tiny / subnormal results: absolute rounding error of one quantum on top of the relative slack
+        lo = max(fr(got) - QUANTUM, Fraction(0)); hi = fr(got) + QUANTUM
+        if lo ** n * (1 - rel) > prod or hi ** n * (1 + rel) < prod:
+            return (f"geometric mean {got!r} of tiny positive values: the {n}-th powers of {got!r} -+ 2^-1074 do not enclose the "
+                    f"product of the sample to within rounding")
+        if hi < fr(min(xs)) * (1 - rel) or lo > fr(max(xs)) * (1 + rel):
+            return f"geometric mean {got!r} is outside [min, max]"
+        return None
     if abs(fr(got) ** n - prod) > rel * prod:
         return (f"geometric mean {got!r}: its {n}-th power differs from the product of the sample by more than rounding "
                 f"(relative {float(abs(fr(got) ** n - prod) / prod)!r} > {float(rel)!r})")
@@ -239,7 +271,8 @@ def _close_bits(a_tok, b_tok):
 def compare(req, impl, model):
     """The framework's default relation (tokens exactly, `f<bits>` tokens numerically: bit-equal, both NaN, or within
     1e-9 relative - the deviation and the means "equal their defining formulas to within rounding", so last bits may
-    move), with one exception: the geometric mean of a non-empty sample that contains a value that is not positive
+    move - or, when they differ more, both inside the allowance that the oracle itself grants for that field of that
+    request, `_both_within_allowance`), with one exception: the geometric mean of a non-empty sample that contains a value that is not positive
     (zero, negative, NaN).  The statement and its quantifier constrain the geometric mean for "positive data" only; what
     is returned for such a sample (0, NaN, ...) is a convention the property does not fix, so there only "returns"
     against "panics / aborts" is compared.  The empty sample stays compared (NaN is owed there)."""
@@ -261,10 +294,68 @@ def compare(req, impl, model):
     for k, (x, y) in enumerate(zip(ti, tm)):
         if x == y:
             continue
-        if x[:1] == "f" and y[:1] == "f" and x[1:].isdigit() and y[1:].isdigit() and _close_bits(x, y):
-            continue
+        if x[:1] == "f" and y[:1] == "f" and x[1:].isdigit() and y[1:].isdigit():
+            if _close_bits(x, y) or _both_within_allowance(t, k, fl(x[1:]), fl(y[1:])):
+                continue
         return f"field {k}: impl {x} model {y}"
     return None
+
+
+def _field_of(t, k):
+    """what field k of the answer to the request t is: ("mean" | "std" | "geom", deviation kind, sample)"""
+    cmd = t[0]
+    if cmd == "mean" and k == 0:
+        return "mean", None, read_vec(t, 1)[0]
+    if cmd == "geom" and k == 0:
+        return "geom", None, read_vec(t, 1)[0]
+    if cmd == "std" and k == 0:
+        return "std", t[1], read_vec(t, 2)[0]
+    if cmd == "samplepop" and k in (0, 1):
+        return "std", "sp"[k], read_vec(t, 1)[0]
+    if cmd in ("translate", "scale") and k in (0, 1, 2, 3):
+        c = fl(t[2])
+        xs = read_vec(t, 3)[0]
+        if k in (1, 3):
+            xs = [x + c for x in xs] if cmd == "translate" else [c * x for x in xs]
+        return ("std" if k < 2 else "mean"), t[1], xs
+    return None
+
+
+def _both_within_allowance(t, k, a, b):
+    """Both numbers are answers the property accepts for this field: each passes the oracle's own clause for it
+    (`check_mean` / `check_std` / `check_geom`: the defining formula in exact rationals within the rounding allowance that
+    is derived in the module docstring - relative to the DATA scale: 4(n+8) u var + 8 ((n+1) u max|x|)^2 + underflow for a
+    deviation), and the clause is in force (the oracle does not abstain on this sample).  A deviation of nine values
+    around 1e6 that differ by a few ulps is rounding noise (1e-9 from a left-to-right sum, 1e-10 or 0 from a pairwise
+    one): compared relative to the result the two differ by 100 %, compared with what the statement promises ("equal
+    their defining formulas to within rounding") they are the same answer.  NaN against a number, infinities and panics
+    never pass (the clauses reject them)."""
+    try:
+        f = _field_of(t, k)
+        if f is None:
+            return False
+        what, kind, xs = f
+        if isnan(a) or isnan(b) or not xs or not finite(xs):
+            return False
+        if (math.isinf(a) or math.isinf(b)) and what != "geom":
+            return False
+        if what == "mean":
+            if max(abs(x) for x in xs) > MEAN_MAX:
+                return False
+            return check_mean(xs, a) is None and check_mean(xs, b) is None
+        if what == "std":
+            fa, va, _ = check_std(kind, xs, a)
+            if fa is not None or va is None:
+                return False
+            fb, vb, _ = check_std(kind, xs, b)
+            return fb is None and vb is not None
+        if what == "geom":
+            if any(x <= 0 for x in xs):
+                return False
+            return check_geom(xs, a) is None and check_geom(xs, b) is None
+    except Exception:
+        return False
+    return False
 
 
 def nontrivial(req, model):
